@@ -48,7 +48,7 @@ def main():
         except Exception:  # noqa
             pass
     if "--no-baseline" not in sys.argv:
-        rcb, ob = sh(f"/tmp/run_baseline_in.sh {wt}")
+        rcb, ob = sh(f"{V}/tools/run_baseline_in.sh {wt}")
         base = [l for l in ob.splitlines() if l.startswith("baseline")][-1:] or [ob[-200:]]
         base = base[0] + ("" if rcb == 0 else "  (FAILED)")
     results = {}
@@ -76,7 +76,7 @@ def main():
                 "demo_exit_without_change": rc_without,
                 "baseline_with_change": base,
                 "commands": [f"PYTHONPATH={wt}/src /venv/bin/python seeded_demo.py (with / without the change)",
-                             f"/tmp/run_baseline_in.sh {wt}", f"VERIF_REPO={wt} ./check {prop} --tier {tier}"],
+                             f"tools/run_baseline_in.sh {wt}", f"VERIF_REPO={wt} ./check {prop} --tier {tier}"],
             },
             "detection": results,
             "detected": any(v["exit"] == 1 for v in results.values()),
